@@ -297,3 +297,30 @@ Proof.
     [destruct (of_bytes_reverse_v6 _ _ H) as [R T] | destruct (of_bytes_reverse_v4 _ _ H) as [R T]];
     rewrite R; auto.
 Qed.
+
+(* ------------------------------------------------------------------ TCP: flags and ports together *)
+(* when the port heuristics designate the direction of e as the requesting one, every packet the
+   requester can send (anything but a SYN-ACK) and every packet the responder can send (anything
+   but a bare SYN) file the conversation under e *)
+Lemma tcp_consistent : forall v6 e a b,
+  proto e = pTCP -> ports_equal e = false -> snd (classify_ports_r e) = Remains ->
+  is_synack a = false -> is_syn b = false ->
+  stored_key v6 e a = e /\ stored_key v6 (reverse e) b = e.
+Proof.
+  intros v6 e a b P Q V NA NB.
+  pose proof (ports_opposite e Q) as O. rewrite V in O.
+  assert (V' : snd (classify_ports_r (reverse e)) = Reverts)
+    by (destruct (snd (classify_ports_r (reverse e))); cbn in O; try discriminate O; reflexivity).
+  assert (C1 : classify v6 e a = Remains).
+  { unfold classify, classify_r. rewrite P. cbn [N.eqb pTCP Pos.eqb]. unfold is_synack in NA.
+    destruct (a =? 0); cbn [negb andb]; [exact V|].
+    destruct (N.land a flagSYN =? 0); cbn [negb andb] in *; [exact V|].
+    destruct (N.land a flagACK =? 0); cbn [negb] in *; [reflexivity|discriminate NA]. }
+  assert (C2 : classify v6 (reverse e) b = Reverts).
+  { unfold classify, classify_r. replace (proto (reverse e)) with pTCP by (destruct e; symmetry; exact P).
+    cbn [N.eqb pTCP Pos.eqb]. unfold is_syn in NB.
+    destruct (b =? 0); cbn [negb andb]; [exact V'|].
+    destruct (N.land b flagSYN =? 0); cbn [negb andb] in *; [exact V'|].
+    destruct (N.land b flagACK =? 0); cbn [negb] in *; [discriminate NB|reflexivity]. }
+  unfold stored_key. rewrite C1, C2, reverse_involutive. auto.
+Qed.
